@@ -827,3 +827,42 @@ def deprecation_checks(ctx):
                 prm0 = SD.SymDict(["k_mm", SD.KAPPA], "params")
                 ctx.ob("%s/none-when-the-type-has-a-roughness#%d" % (fn, kx), "ensures",
                        ax() + [p.cond(), z3.Not(given), prm0.present["k_mm"]], rt == SD.pv_const(None))
+
+
+@unit("C16", "reference_checks/forwarding", functions=[CR + ":_check_branch", CR + ":_check_branches", CR + ":_check_junction_element",
+                                                       CR + ":_check_multiple_junction_elements"], engine="E5")
+def reference_check_forwarding(ctx):
+    """the four reference checks are thin wrappers of pandapower's element checks (assumed contract A4: raise UserWarning
+    iff a referenced index is missing in net[<node table>]): each hands over the net and EVERY reference it was given, and
+    names the junction table as the table to look the references up in"""
+    ctx.assume("A4", "A6")
+    net = K.NetObj({})
+    a_, b_, i_ = (SD.PV(z3.Const("arg!%s" % n, SD.PyVal)) for n in ("from", "to", "index"))
+    cases = [("_check_junction_element", [net, a_], "_check_element", [a_]),
+             ("_check_multiple_junction_elements", [net, a_], "_check_multiple_elements", [a_]),
+             ("_check_branch", [net, "Pipe", i_, a_, b_], "_check_branch_element", [a_, b_]),
+             ("_check_branches", [net, a_, b_, "pipe"], "_check_multiple_branch_elements", [a_, b_])]
+    for fn, args, target, refs in cases:
+        calls = []
+
+        class _X:
+            def __init__(self, nm):
+                self.nm = nm
+
+            def call(self, ev, a, k, lineno):
+                calls.append((self.nm, list(a), dict(k)))
+                return None
+        paths = T.run_paths(ctx, CR + ":" + fn, lambda _a=args: (list(_a), {}),
+                            hooks={"global": lambda m, n: _X(n) if n in ("_check_element", "_check_multiple_elements",
+                                                                          "_check_branch_element", "_check_multiple_branch_elements") else None})
+        ok = len(paths) == 1 and paths[0].exc is None and len(calls) == 1 and calls[0][0] == target
+        ctx.decided("%s/delegates-to-%s" % (fn, target), "ensures", ok, witness=str(([str(p.exc) for p in paths], [c[0] for c in calls])))
+        if not ok:
+            continue
+        _, a, k = calls[0]
+        flat = list(a) + list(k.values())
+        ctx.decided("%s/net-handed-over" % fn, "ensures", any(x is net for x in flat), witness=repr(a))
+        ctx.decided("%s/every-reference-handed-over" % fn, "ensures", all(any(x is r for x in flat) for r in refs), witness=repr((a, k)))
+        table = k.get("element", k.get("node_name"))
+        ctx.decided("%s/looked-up-in-the-junction-table" % fn, "ensures", table == "junction" or "junction" in [x for x in a if isinstance(x, str)],
+                    witness=repr((a, k)))
